@@ -102,6 +102,7 @@ type Conn struct {
 	inner *clientHello
 
 	hpkeCtx *hpke.Receipient
+	hpkeKey int // index in keys of the key hpkeCtx was set up with
 
 	keys             []Key
 	debugf           func(string, ...any)
@@ -190,39 +191,47 @@ func (c *Conn) processEncryptedClientHello(h *clientHello, isRetry bool) (*clien
 		return nil, nil
 	}
 	var innerBytes []byte
-	for _, key := range c.keys {
+	for i, key := range c.keys {
 		cfg, err := Config(key.Config).Spec()
 		if err != nil || cfg.ID != h.echExt.ConfigID || slices.IndexFunc(cfg.CipherSuites, func(cs CipherSuite) bool {
 			return cs == h.echExt.CipherSuite
 		}) == -1 {
 			continue
 		}
-		if c.hpkeCtx == nil && len(h.echExt.Enc) > 0 {
+		// Config ids are not unique: try every candidate key with its own
+		// HPKE context and keep the context of the key that opens the
+		// payload. A retried hello reuses the context, and therefore the
+		// key, of the first one.
+		ctx := c.hpkeCtx
+		if ctx != nil && i != c.hpkeKey {
+			continue
+		}
+		if ctx == nil {
+			if len(h.echExt.Enc) == 0 {
+				return nil, ErrIllegalParameter
+			}
 			echPriv, err := hpke.ParseHPKEPrivateKey(cfg.KEM, key.PrivateKey)
 			if err != nil {
 				return nil, err
 			}
 			info := append([]byte("tls ech\x00"), key.Config...)
-			ctx, err := hpke.SetupReceipient(cfg.KEM, h.echExt.CipherSuite.KDF, h.echExt.CipherSuite.AEAD, echPriv, info, h.echExt.Enc)
-			if err != nil {
+			if ctx, err = hpke.SetupReceipient(cfg.KEM, h.echExt.CipherSuite.KDF, h.echExt.CipherSuite.AEAD, echPriv, info, h.echExt.Enc); err != nil {
 				continue
 			}
-			c.hpkeCtx = ctx
-		}
-		if c.hpkeCtx == nil {
-			return nil, ErrIllegalParameter
 		}
 		aad, err := h.marshalAAD()
 		if err != nil {
 			return nil, err
 		}
-		innerBytes, err = c.hpkeCtx.Open(aad, h.echExt.Payload)
+		pt, err := ctx.Open(aad, h.echExt.Payload)
 		if err != nil {
 			continue
 		}
 		if string(cfg.PublicName) != h.ServerName {
 			return nil, ErrIllegalParameter
 		}
+		innerBytes, c.hpkeCtx, c.hpkeKey = pt, ctx, i
+		break
 	}
 	if innerBytes == nil {
 		// Section 7.1.1, regarding a retried ClientHello:
